@@ -1,0 +1,20 @@
+//go:build verif
+
+package recovery
+
+import "time"
+
+// VerifObserver, when set, is told about every load attempt and every back-off delay.
+var VerifObserver func(event string, attempt int, delay time.Duration)
+
+func verifAttempt(attempt int) {
+	if VerifObserver != nil {
+		VerifObserver("attempt", attempt, 0)
+	}
+}
+
+func verifDelay(attempt int, d time.Duration) {
+	if VerifObserver != nil {
+		VerifObserver("delay", attempt, d)
+	}
+}
